@@ -5,13 +5,16 @@ import (
 	"crypto/hmac"
 	"crypto/sha256"
 	"encoding/hex"
+	"encoding/json"
 	"fmt"
 	"net/http"
 	"net/http/httptest"
 	"os"
+	"os/exec"
 	"path/filepath"
 	"sort"
 	"strings"
+	"sync"
 	"testing"
 	"testing/synctest"
 	"time"
@@ -73,7 +76,7 @@ func (o op) String() string {
 	case "reload":
 		return fmt.Sprintf("reload(tolerance=%s)", o.Tol)
 	case "flood":
-		return fmt.Sprintf("flood(%d distinct nonces, valid signatures=%v)", floodN, o.Valid)
+		return fmt.Sprintf("flood(%d distinct nonces, signed timestamp ts0+%ds, valid signatures=%v)", floodN, o.TS, o.Valid)
 	}
 	return "clock->next"
 }
@@ -227,8 +230,18 @@ func vioKey(hist []op, o op, pos time.Duration, curTol time.Duration) string {
 }
 
 func TestCheck(t *testing.T) {
+	if os.Getenv("VERIF_C09_FLOODCHILD") != "" {
+		floodChild(t)
+		return
+	}
 	r := runner.Start("C09", "model_checking")
 	dir := filepath.Join(runner.Scratch(), "c09")
+	// "no matter how many other requests happen in between": floods of 20 000 requests between the original and its replay
+	// run in child processes next to everything else (quick: one history; thorough: 32); see floodHists
+	var floods *floodRun
+	if _, child := runner.IsShard(); !child && runner.ReplayPath() == "" {
+		floods = startFloods(dir+"-flood", floodHists(r.Thorough()), runner.Pick(r, 1, 8))
+	}
 	// ---- (1) explicit-state search over send / clock / reload histories --------------------------------
 	type out struct {
 		next st
@@ -259,6 +272,38 @@ func TestCheck(t *testing.T) {
 			res.key = w.key(gp, next)
 		})
 		return res
+	}
+	// --replay of a history (search or flood part); schedule documents are replayed by schedrun below
+	if rp := runner.ReplayPath(); rp != "" {
+		var doc struct {
+			Replay struct {
+				Engine  string `json:"engine"`
+				History []op   `json:"history"`
+				Op      *op    `json:"op"`
+			} `json:"replay"`
+		}
+		if b, err := os.ReadFile(rp); err == nil && json.Unmarshal(b, &doc) == nil {
+			switch doc.Replay.Engine {
+			case "flood":
+				if why := runFlood(t, dir+"-replay", doc.Replay.History); why != "" {
+					r.Violation("replay:replay-after-flood", fmt.Sprintf("after %v: %s", floodText(doc.Replay.History), why), map[string]any{"engine": "flood", "history": doc.Replay.History}, nil)
+				}
+			case "bfs":
+				s := st{CurTol: tol, Accepted: map[string]int{}}
+				hist := doc.Replay.History
+				if doc.Replay.Op != nil {
+					hist = append(append([]op{}, hist...), *doc.Replay.Op)
+				}
+				for i, o := range hist {
+					res := step(hist[:i], s, o)
+					if res.why != "" {
+						r.Violation("replay:"+res.vk, fmt.Sprintf("after %v, %s: %s", hist[:i], o, res.why), map[string]any{"engine": "bfs", "history": hist[:i], "op": o}, nil)
+						break
+					}
+					s = res.next
+				}
+			}
+		}
 	}
 	if _, child := runner.IsShard(); !child && runner.ReplayPath() == "" {
 		eng := &bfs.Engine[st, op]{
@@ -303,14 +348,9 @@ func TestCheck(t *testing.T) {
 			r.Violation(v.Key, fmt.Sprintf("after %v, %s: %s", txt, v.Op, v.Message), map[string]any{"engine": "bfs", "history": v.Hist, "op": v.Op, "history_text": txt}, nil)
 		}
 	}
-	// ---- (1b) "no matter how many other requests happen in between": a flood of requests with distinct nonces (valid
-	// and bogus signatures alike - the nonce is recorded before the signature is checked) between the original and its
-	// replay, at every position of every short history. A bounded search cannot reach a capacity limit by single
-	// steps; the flood is one operation of 20 000 requests.
-	// Thorough tier only: the nonce cache sweeps all its entries on every call, so one flood costs about 40 CPU seconds.
-	if _, child := runner.IsShard(); !child && runner.ReplayPath() == "" && r.Thorough() {
-		floodPart(r, t, dir)
-	}
+	// ---- (1b) floods: started above, collected below. A bounded search cannot reach a capacity limit by single steps;
+	// the flood is one operation of 20 000 requests (the nonce cache sweeps all its entries on every call, so one flood
+	// costs about 40 CPU seconds).
 	// ---- (2) schedules: the same signed request twice concurrently, with a reload in between -----------
 	for _, withReload := range []bool{false, true} {
 		name := fmt.Sprintf("concurrent-duplicates-reload%v", withReload)
@@ -368,6 +408,9 @@ func TestCheck(t *testing.T) {
 		schedrun.Run(r, t, schedrun.Spec{Name: name, Bound: runner.Pick(r, 3, -1), Shards: 8, Budget: runner.Pick(r, 20*time.Second, 4*time.Minute), MaxExecs: 300000,
 			Body: body, Oracle: oracle, VioKey: func(f *sched.Failure) string { return cls }})
 	}
+	if floods != nil {
+		floods.collect(r)
+	}
 	r.Assume("narrow reading (implied by every reading of the statement): among requests carrying the same nonce AND the same signed timestamp at most one is honoured while that timestamp passes the tolerance check in force at arrival; the broader reading (same nonce, newer timestamp after the first entry expired) needs unbounded memory and is not checked")
 	r.Assume("reloads in the alphabet keep the route HMAC-protected (same secret), tolerance unchanged or doubled")
 	r.Set("rule", "(1) every history up to the depth over {valid/invalid/duplicate signed requests with 2 nonces and 2 signed timestamps, clock to the next of 12 positions around ts-tol, ts, ts+tol, ts+2tol, ts+3tol (+/- 1 ns), reload same / reload with doubled tolerance}, through the ingress handler wired by startServers with the real reloadConfig inside a virtual-time bubble, de-duplicated on the runtime state dump; (2) every interleaving of two identical signed requests and a reload; non-trivial = distinct (operation, status) pairs and distinct concurrent outcomes")
@@ -376,82 +419,161 @@ func TestCheck(t *testing.T) {
 
 const floodN = 20000
 
-// floodPart: histories  pre* ; send R ; mid* ; flood ; mid2* ; replay R  with pre/mid over {clock->next, reload(2T),
-// reload(T)} up to one step each; the replay must be refused while R's signed timestamp passes the tolerance in force.
-func floodPart(r *runner.Run, t *testing.T, dir string) {
+// floodPart: histories  pre ; send R ; mid ; flood ; replay R  with pre/mid over {nothing, clock->next, reload(2T),
+// reload(T)}; the replay must be refused while R's signed timestamp passes the tolerance in force. The flooding
+// requests carry the original's signed timestamp or one second more (so that the original is the OLDEST entry of the
+// nonce cache - what an eviction rule would pick deterministically; with equal timestamps the pick depends on Go's map
+// order), valid or bogus signatures. Every history runs in a child process of its own, 8 at a time.
+func floodHists(thorough bool) [][]op {
 	steps := []op{{Kind: "none"}, {Kind: "clock"}, {Kind: "reload", Tol: 2 * tol}, {Kind: "reload", Tol: tol}}
-	// a flood costs seconds (the nonce cache sweeps all entries on every call): quick = flood directly / one clock step
-	// after the original; thorough = every pre x mid x mid2 combination
-	pres, mids, mid2s := steps[:2], steps, steps[:1]
-	n, vio := 0, 0
-	for _, pre := range pres {
-		for _, mid := range mids {
-			for _, mid2 := range mid2s {
-				for _, bogus := range []bool{false, true} {
-					var why string
-					hist := []op{pre, {Kind: "send", Nonce: "n1", TS: 0, Valid: true}, mid, {Kind: "flood", Valid: !bogus}, mid2}
-					synctest.Test(t, func(t *testing.T) {
-						w, err := boot(dir)
-						if err != nil {
-							why = "INFRA " + err.Error()
-							return
-						}
-						defer w.a.Shutdown()
-						gp := 0
-						// move to ts0 so that the original is inside the window
-						for grid[gp] < 0 {
-							w.apply(op{Kind: "clock"}, &gp)
-						}
-						curTol := tol
-						honoured := false
-						for _, h := range hist {
-							switch h.Kind {
-							case "none":
-							case "flood":
-								for i := 0; i < floodN; i++ {
-									rec := httptest.NewRecorder()
-									w.a.Ingress.ServeHTTP(rec, signed(fmt.Sprintf("f%d", i), w.tsOf(0), h.Valid))
-								}
-							case "send":
-								if w.apply(h, &gp) == 202 {
-									honoured = true
-								}
-							case "clock":
-								if gp+1 < len(grid) {
-									w.apply(h, &gp)
-								}
-							case "reload":
-								if w.apply(h, &gp) == 0 {
-									curTol = h.Tol
-								}
-							}
-						}
-						d := time.Now().Sub(time.Unix(w.tsOf(0), 0))
-						code := w.apply(op{Kind: "send", Nonce: "n1", TS: 0, Valid: true}, &gp)
-						if honoured && code == 202 && d >= -curTol && d <= curTol {
-							why = fmt.Sprintf("replay accepted after a flood of %d requests with other nonces (tolerance in force %s, age %s)", floodN, curTol, d)
-						}
-					})
-					n++
-					if strings.HasPrefix(why, "INFRA") {
-						r.Infra("%s", why)
-						return
-					}
-					if why != "" {
-						vio++
-						var txt []string
-						for _, h := range hist {
-							if h.Kind != "none" {
-								txt = append(txt, h.String())
-							}
-						}
-						r.Violation("replay-after-flood", fmt.Sprintf("after %v: %s", txt, why), map[string]any{"engine": "flood", "history_text": txt}, nil)
-					}
+	orig := op{Kind: "send", Nonce: "n1", TS: 0, Valid: true}
+	if !thorough {
+		// one history next to the search: newer timestamps, valid signatures
+		return [][]op{{{Kind: "none"}, orig, {Kind: "none"}, {Kind: "flood", Valid: false, TS: 1}}}
+	}
+	var out [][]op
+	for _, pre := range steps[:2] {
+		for _, mid := range steps {
+			for _, bogus := range []bool{false, true} {
+				for _, off := range []int{1, 0} {
+					out = append(out, []op{pre, orig, mid, {Kind: "flood", Valid: !bogus, TS: off}})
 				}
 			}
 		}
 	}
-	r.Add("states", int64(n))
-	r.Add("transitions", int64(n)*int64(floodN))
-	r.Set("flood_part", map[string]any{"histories": n, "requests_per_flood": floodN, "violations": vio})
+	return out
+}
+
+type floodRun struct {
+	hists [][]op
+	done  chan struct{}
+	whys  []string
+}
+
+// startFloods runs every history in a child process (at most par at a time) and returns at once.
+func startFloods(dir string, hists [][]op, par int) *floodRun {
+	fr := &floodRun{hists: hists, done: make(chan struct{}), whys: make([]string, len(hists))}
+	go func() {
+		defer close(fr.done)
+		sem := make(chan struct{}, par)
+		var wg sync.WaitGroup
+		for i, h := range hists {
+			wg.Add(1)
+			sem <- struct{}{}
+			go func(i int, h []op) {
+				defer wg.Done()
+				defer func() { <-sem }()
+				js, _ := json.Marshal(h)
+				cmd := exec.Command(os.Args[0], "-test.run", "^TestCheck$", "-test.timeout", "0")
+				cmd.Env = append(os.Environ(), fmt.Sprintf("VERIF_C09_FLOODCHILD=%s-%d", dir, i), "VERIF_C09_FLOODHIST="+string(js), "GOMAXPROCS=2")
+				out, err := cmd.CombinedOutput()
+				why, found := "", false
+				for _, l := range strings.Split(string(out), "\n") {
+					if rest, ok := strings.CutPrefix(l, "FLOOD-RESULT "); ok {
+						if _, err := fmt.Sscanf(rest, "%q", &why); err == nil {
+							found = true
+						}
+					}
+				}
+				if !found {
+					why = fmt.Sprintf("INFRA flood child gave no result (%v): %.300s", err, out)
+				}
+				fr.whys[i] = why
+			}(i, h)
+		}
+		wg.Wait()
+	}()
+	return fr
+}
+
+func (fr *floodRun) collect(r *runner.Run) {
+	<-fr.done
+	vio := 0
+	for i, why := range fr.whys {
+		switch {
+		case strings.HasPrefix(why, "INFRA"):
+			r.Infra("%s", why)
+		case why != "":
+			vio++
+			r.Violation("replay-after-flood", fmt.Sprintf("after %v: %s", floodText(fr.hists[i]), why), map[string]any{"engine": "flood", "history": fr.hists[i], "history_text": floodText(fr.hists[i])}, nil)
+		}
+	}
+	r.Add("states", int64(len(fr.hists)))
+	r.Add("transitions", int64(len(fr.hists))*int64(floodN))
+	var txt [][]string
+	for _, h := range fr.hists {
+		txt = append(txt, floodText(h))
+	}
+	if len(txt) > 4 {
+		txt = txt[:4]
+	}
+	r.Set("flood_part", map[string]any{"histories": len(fr.hists), "requests_per_flood": floodN, "violations": vio, "first_histories": txt, "where": "one child process per history, next to the search"})
+}
+
+func floodText(hist []op) []string {
+	var txt []string
+	for _, h := range hist {
+		if h.Kind != "none" {
+			txt = append(txt, h.String())
+		}
+	}
+	return txt
+}
+
+// runFlood runs one history  pre ; send R ; mid ; flood ; replay R  and returns why the replay's answer is wrong
+// ("" = fine, "INFRA ..." = the harness could not run it).
+func runFlood(t *testing.T, dir string, hist []op) (why string) {
+	synctest.Test(t, func(t *testing.T) {
+		w, err := boot(dir)
+		if err != nil {
+			why = "INFRA " + err.Error()
+			return
+		}
+		defer w.a.Shutdown()
+		gp := 0
+		// move to ts0 so that the original is inside the window
+		for grid[gp] < 0 {
+			w.apply(op{Kind: "clock"}, &gp)
+		}
+		curTol := tol
+		honoured := false
+		for _, h := range hist {
+			switch h.Kind {
+			case "none":
+			case "flood":
+				for i := 0; i < floodN; i++ {
+					rec := httptest.NewRecorder()
+					w.a.Ingress.ServeHTTP(rec, signed(fmt.Sprintf("f%d", i), w.tsOf(0)+int64(h.TS), h.Valid))
+				}
+			case "send":
+				if w.apply(h, &gp) == 202 {
+					honoured = true
+				}
+			case "clock":
+				if gp+1 < len(grid) {
+					w.apply(h, &gp)
+				}
+			case "reload":
+				if w.apply(h, &gp) == 0 {
+					curTol = h.Tol
+				}
+			}
+		}
+		d := time.Now().Sub(time.Unix(w.tsOf(0), 0))
+		code := w.apply(op{Kind: "send", Nonce: "n1", TS: 0, Valid: true}, &gp)
+		if honoured && code == 202 && d >= -curTol && d <= curTol {
+			why = fmt.Sprintf("replay accepted after a flood of %d requests with other nonces (tolerance in force %s, age %s)", floodN, curTol, d)
+		}
+	})
+	return why
+}
+
+func floodChild(t *testing.T) {
+	var hist []op
+	if err := json.Unmarshal([]byte(os.Getenv("VERIF_C09_FLOODHIST")), &hist); err != nil {
+		fmt.Printf("FLOOD-RESULT %q\n", "INFRA bad history: "+err.Error())
+		return
+	}
+	why := runFlood(t, os.Getenv("VERIF_C09_FLOODCHILD"), hist)
+	fmt.Printf("FLOOD-RESULT %q\n", why)
 }
